@@ -55,6 +55,10 @@ var irPasses = []irPass{
 		return m, nil
 	}},
 	{"DxilPrepare", func(_ *ctx, m *ir.Module, _ int64) (*ir.Module, error) { return dxil.VerifPrepare(m, 0) }},
+	{"DxilSroa", func(_ *ctx, m *ir.Module, _ int64) (*ir.Module, error) { return dxil.VerifPreparePasses(m, true, false, false) }},
+	{"DxilMem2reg", func(_ *ctx, m *ir.Module, _ int64) (*ir.Module, error) { return dxil.VerifPreparePasses(m, false, true, false) }},
+	{"DxilDce", func(_ *ctx, m *ir.Module, _ int64) (*ir.Module, error) { return dxil.VerifPreparePasses(m, false, false, true) }},
+	{"DxilSroaMem2reg", func(_ *ctx, m *ir.Module, _ int64) (*ir.Module, error) { return dxil.VerifPreparePasses(m, true, true, false) }},
 	{"DxilPrepareOpt", func(_ *ctx, m *ir.Module, _ int64) (*ir.Module, error) { return dxil.VerifPrepare(m, 1) }},
 }
 
@@ -147,6 +151,7 @@ func cmdC13(c *ctx) {
 		// knob: `return` nested in a loop/switch of a helper (known finding: inliner) in 1 program of 4
 		knob := "flatRet"
 		o.flatRet = true
+		o.callInSwitch = true
 		if i%4 == 3 {
 			knob, o.flatRet = "nestedRet", false
 		}
